@@ -461,3 +461,85 @@ Proof.
        [| apply conn_ok_frame with s; cbn; auto; [frame_tac | apply (inv_conn _ I)]].
   all: unfold conn_ok in *; cbn; rewrite upd_same; cbn; unfold cleanc, flight in *; cbn; rewrite ?Es; intuition.
 Qed.
+
+Lemma pres_srvabort s c s' : Inv s -> st_srvabort s c = Some s' -> Inv s'.
+Proof.
+  intros I. unfold st_srvabort. intros H; inversion H; subst s'; clear H.
+  destruct (inv_conn _ I c) as (K1 & K2 & K3 & K4 & K5). envstep I s.
+  - intros c0; destruct (Nat.eq_dec c0 c) as [->|N]; [rewrite upd_same|rewrite upd_other by auto; apply view_refl].
+    unfold view, cleanc; cbn. intuition.
+  - intros c0; destruct (Nat.eq_dec c0 c) as [->|N];
+       [| apply conn_ok_frame with s; cbn; auto; [frame_tac | apply (inv_conn _ I)]].
+    unfold conn_ok in *; cbn; rewrite upd_same; cbn; unfold cleanc, flight in *; cbn; intuition.
+Qed.
+
+Lemma mem_single q x : mem q [x] = true -> x = q.
+Proof. unfold mem; cbn. rewrite orb_false_r. intros H. apply Nat.eqb_eq in H. auto. Qed.
+
+Lemma pres_srvhalf2 s c s' : Inv s -> st_srvhalf2 s c = Some s' -> Inv s'.
+Proof.
+  intros I. unfold st_srvhalf2. destruct (inv_conn _ I c) as (K1 & K2 & K3 & K4 & K5).
+  destruct (s_mid (srv (conns s c))) as [q|] eqn:Em; try discriminate.
+  destruct (s_aborted _) eqn:Ea; try discriminate.
+  intros H; inversion H; subst s'; clear H. envstep I s.
+  - intros c0; destruct (Nat.eq_dec c0 c) as [->|N]; [rewrite upd_same|rewrite upd_other by auto; apply view_refl].
+    unfold view, cleanc; cbn. rewrite Em. intuition discriminate.
+  - intros c0; destruct (Nat.eq_dec c0 c) as [->|N];
+       [| apply conn_ok_frame with s; cbn; auto; [frame_tac | apply (inv_conn _ I)]].
+    unfold conn_ok; cbn; rewrite upd_same; cbn.
+    split; auto. split; auto. split; auto. split.
+    + intros He. destruct (K4 He) as [Hcl | (q0 & w0 & F & P & X)].
+      * destruct Hcl as (_&_&_&_&C5&_). congruence.
+      * right. exists q0, w0. split; auto. unfold flight in *. cbn.
+        destruct F as (F0 & F). split; auto.
+        destruct F as [F|[F|[F|[F|[F|F]]]]]; destruct F as (F1 & F2 & F3 & F4); try congruence;
+          rewrite F2 in Em; inversion Em; subst; rewrite F1, F3, F4; cbn; pick.
+    + intros Hi. destruct (K5 Hi) as (_ & (_&_&_&_&C5&_)). congruence.
+Qed.
+
+Lemma mem_nil q : mem q [] = false.
+Proof. reflexivity. Qed.
+
+Lemma pres_srvreply s c q s' (first : bool) :
+  Inv s ->
+  (let cn := conns s c in let v := srv cn in
+   if negb (s_aborted v) && mem q (s_unans v) && negb (is_some (s_mid v)) then
+     Some (set_conn s c (set_srv cn (mkSrv (remove1 q (s_unans v)) (if first then Some q else None)
+                                           (s_inbox v ++ [if first then Half1 q else Whole q])
+                                           (s_aborted v) (s_maxout v) (s_dirtyq v))))
+   else None) = Some s' -> Inv s'.
+Proof.
+  intros I. cbn. destruct (inv_conn _ I c) as (K1 & K2 & K3 & K4 & K5).
+  destruct (negb (s_aborted (srv (conns s c))) && mem q (s_unans (srv (conns s c))) &&
+            negb (is_some (s_mid (srv (conns s c))))) eqn:G; try discriminate.
+  apply andb_true_iff in G. destruct G as [G Gm]. apply andb_true_iff in G. destruct G as [Ga Gu].
+  intros H; inversion H; subst s'; clear H. envstep I s.
+  - intros c0; destruct (Nat.eq_dec c0 c) as [->|N]; [rewrite upd_same|rewrite upd_other by auto; apply view_refl].
+    unfold view, cleanc; cbn. repeat split; auto; exfalso; destruct H as (_&_&_&C4&_); rewrite C4 in Gu; discriminate.
+  - intros c0; destruct (Nat.eq_dec c0 c) as [->|N];
+       [| apply conn_ok_frame with s; cbn; auto; [frame_tac | apply (inv_conn _ I)]].
+    unfold conn_ok; cbn; rewrite upd_same; cbn.
+    split; auto. split; auto. split; auto. split.
+    + intros He. destruct (K4 He) as [Hcl | (q0 & w0 & F & P & X)].
+      * destruct Hcl as (_&_&_&C4&_). rewrite C4 in Gu; discriminate.
+      * right. exists q0, w0. split; auto. unfold flight in *. cbn.
+        destruct F as (F0 & F). split; auto.
+        destruct F as [F|[F|[F|[F|[F|F]]]]]; destruct F as (F1 & F2 & F3 & F4);
+          rewrite F1 in Gu; try discriminate.
+        apply mem_single in Gu. subst q0. rewrite F1, F3, F4. cbn. rewrite Nat.eqb_refl.
+        destruct first; pick.
+    + intros Hi. destruct (K5 Hi) as (_ & (_&_&_&C4&_)). rewrite C4 in Gu; discriminate.
+Qed.
+
+Lemma pres_srvwhole s c q s' : Inv s -> st_srvwhole s c q = Some s' -> Inv s'.
+Proof. intros I H. apply (pres_srvreply s c q s' false I H). Qed.
+Lemma pres_srvhalf1 s c q s' : Inv s -> st_srvhalf1 s c q = Some s' -> Inv s'.
+Proof. intros I H. apply (pres_srvreply s c q s' true I H). Qed.
+
+Lemma pres_tclose s s' : Inv s -> st_tclose s = Some s' -> Inv s'.
+Proof.
+  intros I. unfold st_tclose. intros H; inversion H; subst s'; clear H. envstep I s.
+  - intros c. destruct (f_inconns (fl (conns s c))); [|apply view_refl]. unfold view, cleanc; cbn. intuition.
+  - intros c. destruct (inv_conn _ I c) as (K1 & K2 & K3 & K4 & K5).
+    unfold conn_ok; cbn. destruct (f_inconns (fl (conns s c))); cbn; repeat split; auto; apply K5; auto.
+Qed.
